@@ -249,7 +249,8 @@ static long int cfg_opt_gettsecidx(cfg_opt_t *opt, const char *title)
 		if (!sec || !sec->title)
 			return -1;
 
-		if (is_set(CFGF_NOCASE, opt->flags)) {
+		/* a section carries the flags of the context it lives in */
+		if (is_set(CFGF_NOCASE, opt->flags | sec->flags)) {
 			if (strcasecmp(title, sec->title) == 0)
 				return i;
 		} else {
@@ -1072,7 +1073,7 @@ DLLIMPORT cfg_value_t *cfg_setopt(cfg_t *cfg, cfg_opt_t *opt, const char *value)
 			for (i = 0; i < opt->nvalues && val == NULL; i++) {
 				cfg_t *sec = opt->values[i]->section;
 
-				if (is_set(CFGF_NOCASE, cfg->flags)) {
+				if (is_set(CFGF_NOCASE, cfg->flags | opt->flags)) {
 					if (strcasecmp(value, sec->title) == 0)
 						val = opt->values[i];
 				} else {
@@ -2463,7 +2464,7 @@ DLLIMPORT int cfg_opt_rmtsec(cfg_opt_t *opt, const char *title)
 		if (!sec || !sec->title)
 			return CFG_FAIL;
 
-		if (is_set(CFGF_NOCASE, opt->flags)) {
+		if (is_set(CFGF_NOCASE, opt->flags | sec->flags)) {
 			if (strcasecmp(title, sec->title) == 0)
 				break;
 		} else {
